@@ -366,7 +366,7 @@ theorem dict_placeholder_unstable :
     .dictionary "$.s.d" (.leaf "$.s.d.key" (.int .u32) none [0, 0]) (.bytes "$.s.d.value" .utf8 none [0, 1] [97]) ["a"],
     .str "a", ?_, by decide +kernel, ?_⟩
   · simp only [WFB]
-    refine ⟨VLen.none _, ⟨⟨rfl, rfl, by decide⟩, VLen.none _⟩, by decide, by decide, ?_, fun _ => by decide +kernel⟩
+    refine ⟨VLen.none _, ⟨⟨rfl, rfl, by decide⟩, VLen.none _⟩, by decide, by decide, ?_, ⟨fun _ => by decide +kernel, fun h => by simp [B.refusesStr, isUtf8Ty] at h⟩⟩
     intro k hk j hj
     have : dec (B.leaf "$.s.d.key" (.int .u32) none [0, 0]) = [.int 0, .int 0] := by decide
     rw [this] at hk
@@ -452,9 +452,9 @@ invariant "values decoded = index entries" (`DictVals`) is part of `WFB` -/
 def exDict : B := .dictionary "$.d" (.leaf "$.d.key" (.int .u8) none [0]) (.bytes "$.d.value" .utf8 none [0, 1] [120]) ["x"]
 
 example : WFB exDict ∧ Safe exDict ∧ Shape exDict (.dictionary .uint8 .utf8) false [] := by
-  refine ⟨?_, by simp [exDict, Safe, B.isDict], by simp [exDict, Shape, B.isIntLeaf, B.isNullable, B.isUtf8B, isUtf8Ty]⟩
+  refine ⟨?_, by simp [exDict, Safe, B.isDict], by simp [exDict, Shape, B.isIntLeaf, B.isNullable, B.isUtf8B, isUtf8Ty, bytesDT]⟩
   simp only [exDict, WFB]
-  refine ⟨VLen.none _, ⟨⟨rfl, rfl, by decide⟩, VLen.none _⟩, by decide, by decide, ?_, fun _ => by decide +kernel⟩
+  refine ⟨VLen.none _, ⟨⟨rfl, rfl, by decide⟩, VLen.none _⟩, by decide, by decide, ?_, ⟨fun _ => by decide +kernel, fun h => by simp [B.refusesStr, isUtf8Ty] at h⟩⟩
   intro k hk j hj
   have : dec (B.leaf "$.d.key" (.int .u8) none [0]) = [.int 0] := by decide
   rw [this] at hk
@@ -480,14 +480,20 @@ example : (do let root ← runRows {} exRawFields [exRawRow]; pure (dec root) : 
     (do let lv ← interpRow {} exRawFields exRawRow; pure [lv]) ∧
     (interpRow {} exRawFields exRawRow).isOk = true := by decide +kernel
 
-/-- why `covered` excludes dictionaries with other value types (behaviour confirmed on the crate, notes/C01.md): `build_builder`
+/-- a dictionary whose value builder refuses strings (behaviour confirmed on the crate, notes/C01.md): `build_builder`
 ACCEPTS `Dictionary(Int8, Int32)`, every scalar is forwarded to the value builder as a string and an `Int32` builder refuses
-strings — while `Spec.interpScalar` still answers with the string: the specification clause for dictionaries is only right
-for Utf8 / LargeUtf8 values -/
+strings — and `Spec.interpScalar` (the string at the VALUE type, `interpDictStr`) gives the scalar no meaning either: the
+type is inside `coveredW` (R2), and outside `covered` (`into_array` cannot append its placeholder string) -/
 example : (newDT "$.d" (.dictionary .int8 .int32) false []).isOk = true ∧
     (do let b ← newDT "$.d" (.dictionary .int8 .int32) false []; push {} b (.int .i32 1) : R B).isErr = true ∧
-    interpDT {} (.dictionary .int8 .int32) false [] (.int .i32 1) = .ok (.str [49]) ∧
-    covered (.dictionary .int8 .int32) = false := by decide +kernel
+    (interpDT {} (.dictionary .int8 .int32) false [] (.int .i32 1)).isErr = true ∧
+    coveredW (.dictionary .int8 .int32) = true ∧ covered (.dictionary .int8 .int32) = false := by decide +kernel
+
+/-- a dictionary whose value type parses strings stores the PARSED value, and the specification says so; R2 does not
+cover it yet (`dictValOpen`) -/
+example : interpDT { parseDate := fun _ _ => .ok 18262 } (.dictionary .int8 .date32) false [] (.str "2020-01-01") = .ok (.int 18262) ∧
+    coveredW (.dictionary .int8 .date32) = false ∧ coveredW (.dictionary .int8 .utf8View) = false ∧
+    coveredW (.dictionary .int8 (.dictionary .int8 .utf8)) = false := by decide +kernel
 
 /-- R3 hypotheses are satisfiable with a nested, nullable schema: covered, safe, and rows in two presentations -/
 example : [Field.mk "a" (.struct (.cons (.mk "x" .int8 true []) (.cons (.mk "y" .utf8 false []) .nil))) true []].all coveredF = true := by
